@@ -157,3 +157,83 @@ def project_runstate(run):
                         "writerExec": writer, "methodRestart": mrestart, "pstate": pstate})
             failed, w1, writer, scope, mrestart = [], [], False, False, False
     return {"id": run["id"], "ev": out}
+
+
+def project_commands(run):
+    """events for CommandsTrace.tla"""
+    out = []
+    items, nodes, started_nodes = {}, {}, set()
+    body_started, proceeded, first_line, run_id = [], set(), "", 0
+    inited = set()
+    for e in run["events"]:
+        k = e["e"]
+        if k == "init":
+            inited.add(e["inst"])
+        if k == "prog":
+            nodes = {n["id"]: n for n in e["nodes"]}
+        elif k == "item":
+            items[e["id"]] = e
+        elif k in ("init", "exec", "finalize"):
+            out.append({"e": k, "name": e["name"], "inst": e["inst"], "t": e["t"]})
+        elif k == "flag":
+            n = e["n"]
+            if e["f"] == "started" and e["new"] == "True":
+                started_nodes.add(n)
+                if n.startswith("L") and not first_line:
+                    first_line = n
+                par = nodes.get(n, {}).get("parent", "")
+                if nodes.get(par, {}).get("cls") == "WatchNode":
+                    body_started.append(par)
+                    proceeded.add(par)
+                if nodes.get(n, {}).get("thr"):
+                    proceeded.add(n)
+            if e["f"] == "started" and e["new"] == "False":
+                started_nodes.discard(n)
+            if e["f"] == "activated" and e["new"] == "True":
+                proceeded.add(n)
+            if e["f"] == "completed" and e["new"] == "True" and e["ins"] == "Wait":
+                proceeded.add(n)
+        elif k == "req" and e["k"] == "control" and e["name"] in ("Pause", "Hold") and e["res"] == "ok":
+            out.append({"e": "ctl", "name": e["name"], "t": e["t"]})
+        elif k == "req" and e["k"] in ("cancel", "force"):
+            it = items.get(e["item"], {})
+            node = it.get("node", "")
+            cls, name = it.get("cls", ""), it.get("name", "")
+            nd = nodes.get(node, {})
+            if cls == "UodCommandNode":
+                kind = "uod"
+            elif cls == "WatchNode":
+                kind = "watch" if node not in proceeded else "watch-after-activation"
+            elif cls == "AlarmNode":
+                kind = "alarm" if node not in proceeded else "alarm-after-activation"
+            elif name.startswith("Pause"):
+                kind = "pause"
+            elif name.startswith("Hold"):
+                kind = "hold"
+            elif name.startswith("Wait"):
+                kind = "wait"
+            elif nd.get("thr") and node not in started_nodes:
+                kind = "threshold"
+            elif not it:
+                kind = "unknown-item"
+            else:
+                kind = "other"
+            out.append({"e": "req", "k": e["k"], "item": e["item"], "node": node, "offered": bool(e.get("offered")),
+                        "res": "ok" if e["res"] == "ok" else "rejected", "unchanged": bool(e.get("unchanged", True)),
+                        "kind": kind, "target": e["item"], "runId": run_id, "t": e["t"]})
+        elif k == "runStopped":
+            open_ = [ln["name"] for ln in e["lines"]
+                     if items.get(ln["id"], {}).get("cls") == "UodCommandNode" and ln["id"] in inited     # the command itself started
+                     and not (ln["end"] or ln["cancelled"] or ln["failed"])]
+            forced_open = any(ln["forced"] for ln in e["lines"] if ln["name"] in open_)
+            out.append({"e": "runStopped", "open": open_, "exc": "none" if e["exc"] == "none" else "raised",
+                        "site": "forced-command" if forced_open else "command"})
+        elif k == "tickEnd":
+            if e["runId"] != run_id:
+                proceeded = set(p_ for p_ in proceeded if False)
+            run_id = e["runId"]
+            out.append({"e": "tickEnd", "t": e["t"], "started": e["started"], "paused": e["paused"], "holding": e["holding"],
+                        "runId": e["runId"], "err": e["err"], "inst": e["inst"], "simulated": e["simulated"],
+                        "bodyStarted": sorted(set(body_started)), "proceededEver": sorted(proceeded), "firstLine": first_line})
+            body_started, first_line = [], ""
+    return {"id": run["id"], "ev": out}
